@@ -109,6 +109,8 @@ fn menu() -> Vec<(&'static str, &'static str, &'static str, &'static str, Value,
     let p2 = pl_of(&[(A, 100), (B, 0)]);
     let p3 = pl_of(&[(A, 100), (B, 50), (C, 10)]);
     let p4 = pl_of(&[(A, 100), (B, 50), (D, 50)]);
+    // a promotion: the same sender then has power events sent under different levels in different forks
+    let p5 = pl_of(&[(A, 100), (B, 100), (C, 75)]);
     vec![
         ("A-pl-c50", A, "m.room.power_levels", "", plj(&p1), Some(p1)),
         ("A-pl-b0", A, "m.room.power_levels", "", plj(&p2), Some(p2)),
@@ -123,6 +125,10 @@ fn menu() -> Vec<(&'static str, &'static str, &'static str, &'static str, Value,
         ("C-leave", C, "m.room.member", C, json!({"membership": "leave"}), None),
         ("C-join", C, "m.room.member", C, json!({"membership": "join", "displayname": "again"}), None),
         ("D-join", D, "m.room.member", D, json!({"membership": "join"}), None),
+        // (appended, so that the quick tier's sample of fork shapes keeps the shapes it had)
+        ("A-pl-b100", A, "m.room.power_levels", "", plj(&p5), Some(p5)),
+        ("B-jr-knock", B, "m.room.join_rules", "", json!({"join_rule": "knock"}), None),
+        ("C-jr-private", C, "m.room.join_rules", "", json!({"join_rule": "private"}), None),
     ]
 }
 
@@ -394,7 +400,7 @@ fn run_rules(vname: &'static str, rules: AuthorizationRules, thorough: bool) -> 
             let base: Vec<(&str, &str, &str, &str, Value, Option<Pl>)> = vec![
                 ("create", A, "m.room.create", "", json!({"creator": A}), None),
                 ("a-join", A, "m.room.member", A, json!({"membership": "join"}), None),
-                ("pl", A, "m.room.power_levels", "", pl_of(&[(A, 100), (B, 50)]).json(), Some(pl_of(&[(A, 100), (B, 50)]))),
+                ("pl", A, "m.room.power_levels", "", pl_of(&[(A, 100), (B, 50), (C, 75)]).json(), Some(pl_of(&[(A, 100), (B, 50), (C, 75)]))),
                 ("jr", A, "m.room.join_rules", "", json!({"join_rule": "public"}), None),
                 ("b-join", B, "m.room.member", B, json!({"membership": "join"}), None),
                 ("c-join", C, "m.room.member", C, json!({"membership": "join"}), None),
